@@ -158,6 +158,19 @@ Theorem C08_abs_unique :
 Proof. exact sim_abs. Qed.
 Print Assumptions C08_abs_unique.
 
+(* the free list `fl` of the simulation: threaded through from_meta from slot 0 (fhead [] = i64::MIN,
+   fhead (x :: _) = - x; fchain next (x :: r) = (next x = fhead r /\ fchain next r)), duplicate-free, made of
+   cleared unused slots; below capacity 2^63 (whose negation is i64::MIN) no slot is ever leaked: the free
+   list is exactly the set of slots with from_meta < 0 *)
+Theorem C08_free_list :
+  forall g a fl, sim g a fl ->
+    fmeta g 0 = fhead fl /\ fchain (fmeta g) fl /\ NoDup fl /\
+    (forall s, In s fl -> 0 < s < capacity g /\ fmeta g s < 0 /\ from g s = 0 /\ to g s = 0 /\ tmeta g s = 0 /\
+                          ~ In s (a_nodes a) /\ ~ In s (map eslot (a_edges a))) /\
+    (capacity g <= 9223372036854775808 -> forall s, 0 < s < capacity g -> (fmeta g s < 0 <-> In s fl)).
+Proof. exact sim_free_list. Qed.
+Print Assumptions C08_free_list.
+
 (* ---- the four mutations are simulation steps ---- *)
 
 (* insert_node: the new id is positive, its magnitude is used by no node and no edge, it is the next
